@@ -138,10 +138,20 @@ def run(ctx):
         sites.append(("cache read", c))
     for c in wcalls:
         sites.append(("cache write", c))
+    def _rc_access(n):
+        """n is an access of the in-process cache: a subscript of it or a method call on it."""
+        if isinstance(n, ast.Subscript) and U(n.value).endswith("._runtime_cache"):
+            return True
+        if isinstance(n, ast.Call) and isinstance(n.func, ast.Attribute) and U(n.func.value).endswith("._runtime_cache"):
+            return True
+        if isinstance(n, ast.Compare) and any(U(c).endswith("._runtime_cache") for c in n.comparators):
+            return False  # a membership test reads nothing out of the cache
+        return False
+
     for n in ast.walk(init.node):
-        if isinstance(n, ast.Subscript) and U(n.value) == "MachineModel._runtime_cache":
+        if _rc_access(n):
             sites.append(("in-process cache access", n))
-    ctx.floor("R4", "cache access sites in the loader", len(sites), 4)
+    ctx.floor("R4", "cache access sites in the loader", len(sites), 3)
     for what, n in sites:
         facts = [(U(e), p) for e, p in C.facts_at(n)]
         ok = (lazyp, False) in facts or ("not " + lazyp, True) in facts
@@ -152,28 +162,38 @@ def run(ctx):
                          "generator) would read or publish incomplete data" % what)
     # ------------------------------------------------------------------ R5
     ctx.rule("R5", "in-process cache value is dead or re-validated before it becomes the object's state")
-    reads = [n for n in ast.walk(init.node) if isinstance(n, ast.Assign)
-             and "MachineModel._runtime_cache[" in U(n.value) and U(n.targets[0]) == "self._data"]
-    other_reads = [n for n in ast.walk(init.node) if isinstance(n, ast.Subscript)
-                   and U(n.value) == "MachineModel._runtime_cache" and isinstance(n.ctx, ast.Load)
-                   and not any(C.in_subtree(n, r) for r in reads)]
-    for n in other_reads:
-        ctx.node_bad("R5", init, n, "the in-process cache (keyed by path only) is read into something other than "
-                     "self._data: cannot be shown to be re-validated")
-    for r in reads:
-        # every path from r to EXIT must pass another assignment to self._data
-        redefs = [n for n in ast.walk(init.node) if isinstance(n, ast.Assign) and U(n.targets[0]) == "self._data"
-                  and n is not r]
-        from ..cfg import EXIT
+    from ..cfg import EXIT
+
+    def _reads_rc(e):
+        return any(_rc_access(x) and not (isinstance(x, ast.Subscript) and isinstance(x.ctx, ast.Store)) for x in ast.walk(e))
+
+    # names that may hold a value taken out of the path-keyed cache
+    tainted = set()
+    for _ in range(3):
+        for n in ast.walk(init.node):
+            if isinstance(n, ast.Assign) and isinstance(n.targets[0], ast.Name):
+                if _reads_rc(n.value) or (pm.names_in(n.value) & tainted and not C.calls_to(n.value, "sha256", "_get_cached")
+                                          and isinstance(n.value, (ast.Name, ast.BoolOp, ast.IfExp))):
+                    tainted.add(n.targets[0].id)
+    stores = [n for n in ast.walk(init.node) if isinstance(n, ast.Assign) and U(n.targets[0]) == "self._data"
+              and (_reads_rc(n.value) or (isinstance(n.value, ast.Name) and n.value.id in tainted))]
+    all_data_defs = [n for n in ast.walk(init.node) if isinstance(n, ast.Assign) and U(n.targets[0]) == "self._data"]
+    for r in stores:
+        redefs = [n for n in all_data_defs if n is not r and n not in stores]
         dead = not cfg.reachable(r, EXIT, avoid=redefs)
+        # a re-validation against the file's content would compare a digest before the store
+        facts = [U(e) for e, p in C.facts_at(r) if p]
+        revalidated = any("sha256" in t or "hexdigest" in t or "hash" in t.lower() for t in facts)
         if dead:
             ctx.node_ok("R5", init, r, "value from the path-keyed cache is overwritten on every path (dead store)")
+        elif revalidated:
+            ctx.node_ok("R5", init, r, "value from the path-keyed cache is used only after a content-digest comparison")
         else:
-            ctx.node_bad("R5", init, r, "a model served from the in-process cache (keyed by path only) can become the "
-                         "object's state without comparing the file's content hash: an edited model file is not "
-                         "picked up within the process")
-    if not reads and not other_reads:
-        ctx.ok("R5", "the in-process cache is never read", init.where())
+            ctx.node_bad("R5", init, r, "a model taken from the in-process cache (keyed by path only%s) becomes the object's state "
+                         "without comparing the file's content hash: a model file edited after it was first loaded is not "
+                         "picked up within the process" % (", via `%s`" % U(r.value) if isinstance(r.value, ast.Name) else ""))
+    if not stores:
+        ctx.ok("R5", "no value read from the in-process cache reaches self._data", init.where())
     # key of the store
     st = pm.find("MachineModel._runtime_cache[M_k] = M_v", init.node)
     ctx.check(all(U(b["M_v"]) == "self._data" for _, b in st), "R5", "in-process cache stores the loaded data", init.where(),
